@@ -23,12 +23,16 @@ Trace == ndJsonDeserialize("trace.ndjson")
 
 CONSTANT Partial   \* TRUE: only a prefix of the transcript is given (used to locate the first item no behaviour explains)
 
-VARIABLES l, rec
-tvars == <<fvars, l, rec>>
+CONSTANT CheckLines   \* TRUE: the lines written to the input streams are part of what must be explained
 
-TInit == FInit /\ l = 1 /\ rec = <<>>
+VARIABLES l, rec,
+          recl   \* recorded input side: recl[n] says which stream line n was written to (from the
+                 \* harness's writers; lines are numbered in the order entered)
+tvars == <<fvars, l, rec, recl>>
+
+TInit == FInit /\ l = 1 /\ rec = <<>> /\ recl = <<>>
 Is(e) == l <= Len(Trace) /\ Trace[l].e = e
-Consume == l' = l + 1 /\ rec' = rec
+Consume == l' = l + 1 /\ rec' = rec /\ recl' = recl
 
 (* A recorded item r explains a specification item it: same kind; the       *)
 (* attempt when the recording knows it (0: all streams came from one        *)
@@ -52,7 +56,7 @@ Agrees(ev) ==
   /\ (cOut' # None) = ev.outh
   /\ noMore' = ev.nomore
 
-TItems     == Is("Items") /\ och = <<>> /\ pend = <<>> /\ l' = l + 1 /\ rec' = Trace[l].items /\ UNCHANGED fvars
+TItems     == Is("Items") /\ och = <<>> /\ pend = <<>> /\ l' = l + 1 /\ rec' = Trace[l].items /\ recl' = Trace[l].lines /\ UNCHANGED fvars
 TArriveUni == Is("ArriveUni") /\ FArriveUni(Trace[l].a, Trace[l].d, Trace[l].k) /\ Consume
 TArriveIO  == Is("ArriveIO") /\ FArriveIO(Trace[l].a, Trace[l].b) /\ Consume
 TAdmit     == /\ Is("Admit") /\ FAdmit(Trace[l].a)
@@ -60,20 +64,25 @@ TAdmit     == /\ Is("Admit") /\ FAdmit(Trace[l].a)
               /\ Agrees(Trace[l]) /\ Matches /\ Consume
 TRelease   == Is("Release") /\ FRelease(Trace[l].a) /\ Agrees(Trace[l]) /\ Matches /\ Consume
 TShutdown  == Is("Shutdown") /\ FShutdown /\ Consume
-SSend      == Send /\ Matches /\ UNCHANGED <<l, rec>>
+SSend      == Send /\ Matches /\ UNCHANGED <<l, rec, recl>>
 (* silent *)
-SChunk     == \E a \in Att : Chunk(a) /\ Matches /\ UNCHANGED <<l, rec>>
+SChunk     == \E a \in Att : Chunk(a) /\ Matches /\ UNCHANGED <<l, rec, recl>>
 SProxyEnd  == \E a \in Att, w \in {"self", "cancel"}, m \in BOOLEAN :
-                 FProxyEnd(a, w, m) /\ Matches /\ UNCHANGED <<l, rec>>
+                 FProxyEnd(a, w, m) /\ Matches /\ UNCHANGED <<l, rec, recl>>
+(* silent: an attached input stream takes the next entered line; the writers say which stream got it *)
+SLine      == \E a \in Att : /\ Line(a) /\ nline' <= Len(recl)
+                              /\ recl[nline'].n = nline' /\ recl[nline'].a = a
+                              /\ UNCHANGED <<l, rec, recl>>
+LinesDone  == CheckLines => nline = Len(recl)
 TReset ==
-  /\ Is("Reset") /\ (IF Partial THEN Len(och) >= Len(rec) ELSE Len(och) = Len(rec)) /\ l' = l + 1 /\ rec' = <<>>
+  /\ Is("Reset") /\ (IF Partial THEN Len(och) >= Len(rec) ELSE Len(och) = Len(rec)) /\ LinesDone /\ l' = l + 1 /\ rec' = <<>> /\ recl' = <<>>
   /\ key' = "" /\ cIn' = None /\ cOut' = None /\ noMore' = FALSE /\ doRet' = FALSE
   /\ pc' = [a \in Att |-> "new"] /\ adir' = [a \in Att |-> "in"] /\ akey' = [a \in Att |-> ""]
   /\ areq' = [a \in Att |-> 0] /\ cancelled' = {} /\ outcome' = [a \in Att |-> "none"] /\ nreq' = 0 /\ hung' = 0
   /\ told' = {} /\ ready' = 0 /\ gone' = 0 /\ gens' = 0 /\ act' = [n |-> "Reset"]
   /\ pend = <<>> /\ pend' = <<>> /\ och' = <<>> /\ sent' = [a \in Att |-> 0] /\ got' = [a \in Att |-> <<>>] /\ nline' = 0
 
-TNext == TItems \/ TArriveUni \/ TArriveIO \/ TAdmit \/ TRelease \/ TShutdown \/ SChunk \/ SProxyEnd \/ SSend \/ TReset
+TNext == TItems \/ TArriveUni \/ TArriveIO \/ TAdmit \/ TRelease \/ TShutdown \/ SChunk \/ SProxyEnd \/ SSend \/ SLine \/ TReset
 TSpec == TInit /\ [][TNext]_tvars
-NotAllConsumed == ~(l > Len(Trace) /\ pend = <<>> /\ (IF Partial THEN Len(och) >= Len(rec) ELSE Len(och) = Len(rec)))
+NotAllConsumed == ~(l > Len(Trace) /\ pend = <<>> /\ LinesDone /\ (IF Partial THEN Len(och) >= Len(rec) ELSE Len(och) = Len(rec)))
 =============================================================================
